@@ -34,6 +34,7 @@ type ListAct struct {
 	Gate   chan struct{} // if non-nil the call returns only after it is closed (or ctx is done)
 	Late   bool          // take the snapshot at call time (default) but return after Delay/Gate: a stale list
 	Repeat bool          // return the previous list's snapshot (content and version) again
+	Linger time.Duration // after its context was cancelled the call takes this long to return
 }
 
 // WatchAct scripts the n-th Watch call.
@@ -243,6 +244,10 @@ func (s *FakeServer) List(ctx context.Context, opts metav1.ListOptions) (runtime
 		}
 	}
 	if ctx.Err() != nil {
+		if act.Linger > 0 {
+			// a client that needs a moment to notice the cancellation (it still returns in bounded time)
+			time.Sleep(act.Linger)
+		}
 		s.tr.LogRaw("srv", "srv.listret", fmt.Sprintf(`"n":%d,"fail":"ctx","rv":0,"list":[]`, idx))
 		return nil, ctx.Err()
 	}
@@ -566,6 +571,13 @@ func (s *FakeServer) HealthyWatchConnected() bool {
 }
 
 // Stats for C13.
+// InFlight: List calls that have not returned yet.
+func (s *FakeServer) InFlight() int {
+	s.mu.Lock()
+	defer s.mu.Unlock()
+	return s.inFlight
+}
+
 func (s *FakeServer) ListStats() (n int, maxInFlight int, times []time.Time) {
 	s.mu.Lock()
 	defer s.mu.Unlock()
